@@ -1,4 +1,5 @@
 From AV Require Import Lib.Base Model.Chan Model.ChanProps Proofs.ChanP Proofs.RpcP Proofs.GetP Proofs.InboundP Proofs.StopP Proofs.ConfirmP.
+From AV Require Import Model.Dispatch Proofs.DispatchP.
 Local Open Scope Z_scope.
 
 (* C05 - Each synchronous call gets the reply to its own request. *)
@@ -12,7 +13,7 @@ Local Open Scope Z_scope.
 Theorem C05_own_reply : forall s c v w wstr names pre tpre f tpost rest,
   c <> 0%nat -> get_chan (s_chans s) c = Some v -> conn_healthy s -> s_io s = true ->
   s_sendfail s = false ->
-  c_state v = OPEN -> c_errs v = [] -> c_req v = [] -> c_resp v = [] ->
+  c_state v = OPEN -> c_errs v = [] -> c_req v = [] -> c_resp v = [] -> c_ret v = None ->
   forallb (fun t => forallb (quiet c names) t) pre = true ->
   forallb (quiet c names) tpre = true -> in_names (f_name f) names = true ->
   exists s' v',
@@ -26,7 +27,7 @@ Print Assumptions C05_own_reply.
    whose name no outstanding request is waiting for leaves the reply
    bookkeeping untouched, and content frames are queued for the consumer. *)
 Theorem C05_unsolicited : forall s c v f,
-  get_chan (s_chans s) c = Some v -> req_get (c_req v) (f_name f) = None ->
+  get_chan (s_chans s) c = Some v -> c_ret v = None -> req_get (c_req v) (f_name f) = None ->
   exists v', get_chan (s_chans (on_frame s c f)) c = Some v' /\
              c_resp v' = c_resp v /\ c_req v' = c_req v /\
              (is_content (f_name f) = true -> c_inbound v' = c_inbound v ++ [f]).
@@ -44,10 +45,19 @@ Theorem C05_aborted_refuted : exists i, c05_ok i (chan_model i) = false.
 Proof. exists ((1%nat, [{| st_chan := 1%nat; st_op := (ARpc 0%nat); st_script := [[(1%nat, {| f_name := NReturn; f_num := (312)%Z; f_str := ([]%N) |}); (1%nat, {| f_name := NHeader; f_num := (0)%Z; f_str := ([]%N) |})]; [(1%nat, {| f_name := NDeclareOk; f_num := (1)%Z; f_str := ([]%N) |})]] |}; {| st_chan := 1%nat; st_op := (ARpc 0%nat); st_script := [[(1%nat, {| f_name := NDeclareOk; f_num := (2)%Z; f_str := ([]%N) |})]] |}])). vm_compute. reflexivity. Qed.
 Print Assumptions C05_aborted_refuted.
 
-(* Known finding: content of a returned message arriving while basic.get waits is taken for its reply. *)
-Theorem C05_return_content_refuted : exists i, c05_ok i (chan_model i) = false.
-Proof. exists ((1%nat, [{| st_chan := 1%nat; st_op := (APublish true); st_script := [] |}; {| st_chan := 1%nat; st_op := AGet; st_script := [[(1%nat, {| f_name := NReturn; f_num := (312)%Z; f_str := ([]%N) |}); (1%nat, {| f_name := NHeader; f_num := (1)%Z; f_str := ([]%N) |}); (1%nat, {| f_name := NBody; f_num := (0)%Z; f_str := ([120]%N) |}); (1%nat, {| f_name := NGetOk; f_num := (1)%Z; f_str := ([]%N) |}); (1%nat, {| f_name := NHeader; f_num := (1)%Z; f_str := ([]%N) |}); (1%nat, {| f_name := NBody; f_num := (0)%Z; f_str := ([121]%N) |})]] |}])). vm_compute. reflexivity. Qed.
-Print Assumptions C05_return_content_refuted.
+(* The content of a returned message (its header and body frames, which follow the Basic.Return
+   on the wire) is queued for the consumer whoever is waiting for content frames at that moment -
+   a basic.get in particular: it is never offered to the RPC layer (this was the finding
+   return-content-claimed-by-get, see KNOWN_FINDINGS.txt). *)
+Theorem C05_return_content_never_claimed : forall s c v f lft r,
+  get_chan (s_chans s) c = Some v -> c_ret v = Some lft -> ret_content lft f = Some r ->
+  on_frame s c f = upd s c (with_inbound (with_ret v r) (c_inbound v ++ [f])).
+Proof. exact return_content_bypasses_rpc. Qed.
+Print Assumptions C05_return_content_never_claimed.
+
+(* the history that used to fail *)
+Example C05_return_content_history : let i := ((1%nat, [{| st_chan := 1%nat; st_op := (APublish true); st_script := [] |}; {| st_chan := 1%nat; st_op := AGet; st_script := [[(1%nat, {| f_name := NReturn; f_num := (312)%Z; f_str := ([]%N) |}); (1%nat, {| f_name := NHeader; f_num := (1)%Z; f_str := ([]%N) |}); (1%nat, {| f_name := NBody; f_num := (0)%Z; f_str := ([120]%N) |}); (1%nat, {| f_name := NGetOk; f_num := (1)%Z; f_str := ([]%N) |}); (1%nat, {| f_name := NHeader; f_num := (1)%Z; f_str := ([]%N) |}); (1%nat, {| f_name := NBody; f_num := (0)%Z; f_str := ([121]%N) |})]] |}])) in c05_ok i (chan_model i) = true.
+Proof. vm_compute. reflexivity. Qed.
 
 Example C05_nonvacuous : c05_ok ((2%nat, [{| st_chan := 1%nat; st_op := (ARpc 0%nat); st_script := [[(1%nat, {| f_name := NDeliver; f_num := (1)%Z; f_str := ([116]%N) |}); (1%nat, {| f_name := NHeader; f_num := (2)%Z; f_str := ([]%N) |}); (1%nat, {| f_name := NBody; f_num := (0)%Z; f_str := ([104;105]%N) |})]; [(2%nat, {| f_name := NUnknown; f_num := (0)%Z; f_str := ([]%N) |}); (1%nat, {| f_name := NDeclareOk; f_num := (1)%Z; f_str := ([]%N) |})]] |}; {| st_chan := 2%nat; st_op := (ARpc 0%nat); st_script := [[(2%nat, {| f_name := NDeclareOk; f_num := (2)%Z; f_str := ([]%N) |})]] |}; {| st_chan := 1%nat; st_op := ABuild; st_script := [] |}]))
   (chan_model ((2%nat, [{| st_chan := 1%nat; st_op := (ARpc 0%nat); st_script := [[(1%nat, {| f_name := NDeliver; f_num := (1)%Z; f_str := ([116]%N) |}); (1%nat, {| f_name := NHeader; f_num := (2)%Z; f_str := ([]%N) |}); (1%nat, {| f_name := NBody; f_num := (0)%Z; f_str := ([104;105]%N) |})]; [(2%nat, {| f_name := NUnknown; f_num := (0)%Z; f_str := ([]%N) |}); (1%nat, {| f_name := NDeclareOk; f_num := (1)%Z; f_str := ([]%N) |})]] |}; {| st_chan := 2%nat; st_op := (ARpc 0%nat); st_script := [[(2%nat, {| f_name := NDeclareOk; f_num := (2)%Z; f_str := ([]%N) |})]] |}; {| st_chan := 1%nat; st_op := ABuild; st_script := [] |}]))) = true.
@@ -86,17 +96,20 @@ Proof. vm_compute. auto. Qed.
 
 (* ---------- the dispatch of unsolicited frames, tied to the source ---------- *)
 From AV Require Import Model.Dispatch Gen.GenDispatch Proofs.DispatchP.
-(* the model's on_frame is "ask the RPC layer first, then look the name up in this table" ... *)
+(* the model's on_frame is "content of a returned message aside (C05_return_content_never_claimed),
+   ask the RPC layer first, then look the name up in this table" ... *)
 Theorem C05_on_frame_is_the_table : forall s c v f,
-  get_chan (s_chans s) c = Some v -> req_get (c_req v) (f_name f) = None ->
+  get_chan (s_chans s) c = Some v -> c_ret v = None -> req_get (c_req v) (f_name f) = None ->
   on_frame s c f = dispatch expected_content expected_dispatch s c v f.
 Proof. exact on_frame_by_table. Qed.
 Print Assumptions C05_on_frame_is_the_table.
 
 (* ... and the table is the one Channel.on_frame has in the source, regenerated on every run
    (content frames queued for the consumer; Cancel / CancelOk / ConsumeOk / Return / Close / Flow
-   handled; everything else only logged; the RPC layer asked first) *)
+   handled; everything else only logged; the RPC layer asked first - but only after the test for
+   content of a returned message, which is queued without asking it) *)
 Theorem C05_source_dispatch_table :
-  list_eqb fname_eqb gen_content expected_content && table_eqb gen_dispatch expected_dispatch = true.
+  list_eqb fname_eqb gen_content expected_content && table_eqb gen_dispatch expected_dispatch &&
+  gen_return_content_first = true.
 Proof. vm_compute. reflexivity. Qed.
 Print Assumptions C05_source_dispatch_table.
